@@ -1,10 +1,10 @@
 (** Error reports are located: a FileSourceError shows lines of the file it names, at the number it names,
     with the chain of inclusion directives that led there; a FileAccessError names the directive whose
-    file could not be included (missing, or cyclic).  Partial: the source of an error raised by an
-    instruction parser after it consumed input ([IErrAt], computed by _ErrMsgSourceConstructor.ending_at) is
-    excluded here (it is covered by the correspondence check only). *)
+    file could not be included (missing, or cyclic).  Includes the source of an error raised by an
+    instruction parser after it consumed input ([IErrAt], _ErrMsgSourceConstructor.ending_at: Proofs/DocEndingAt.v)
+    and the errors of the inclusion directive parser (which consumes its line before raising). *)
 From Coq Require Import NArith List Bool Arith Lia.
-From Exactly Require Import Lib.Harness Model.Doc Spec.C07 Proofs.DocReader Proofs.DocLocated.
+From Exactly Require Import Lib.Harness Model.Doc Spec.C07 Proofs.DocReader Proofs.DocParseSource Proofs.DocLocated Proofs.DocEndingAt.
 Import ListNotations.
 Local Open Scope N_scope.
 
@@ -20,7 +20,7 @@ Qed.
 Section ErrStep.
   Variable iparse : sec -> text -> list text -> ires.
   Variable fl : list text.
-  Hypothesis no_err_at : forall s r rest n, iparse s r rest <> IErrAt n.
+  Hypothesis fl_ok : Forall no_nl fl.     (* the lines of a file contain no newline *)
 
   Definition good_err (st : step) : Prop :=
     match st with SErr src => err_src_ok fl src = true | _ => True end.
@@ -32,7 +32,7 @@ Section ErrStep.
     destruct (iparse s (skipn c lm) restm) as [kk| |nn|] eqn:E; cbn [good_err]; try exact I.
     - destruct kk as [|k']; [exact I|]. destruct (k' <=? length restm)%nat; exact I.
     - eapply err_line_ok; eassumption.
-    - exfalso. eapply no_err_at; eassumption.
+    - apply ending_at_ok; assumption.
   Qed.
 
   Lemma skip_lines_err : forall s n ls i err,
@@ -99,7 +99,7 @@ Section Reading.
   Variable contents : N -> option (list text).
   Variable root rdir : N.
   Variable rpath : text.
-  Hypothesis no_err_at : forall s r rest n, iparse s r rest <> IErrAt n.
+  Hypothesis lines_ok : forall fid ls, contents fid = Some ls -> Forall no_nl ls.
 
   Definition QE (e : error) : Prop :=
     match e with
@@ -144,7 +144,7 @@ Section Reading.
              injection H as <-. eapply IH; [|eassumption]. eapply at_pos_next; eassumption.
           -- injection H as <-. eapply Hinc; eassumption.
         * injection H as <-. eapply source_error_located; [eassumption|].
-          eapply elem_step_err; eassumption.
+          eapply elem_step_err; [eapply lines_ok; apply Hr|eassumption|eassumption].
         * injection H as <-. exact I.
         * injection H as <-. exact I.
   Qed.
@@ -200,7 +200,7 @@ End Reading.
 
 Theorem error_location_exact :
   forall iparse fs contents depth root path dir ls e,
-    (forall s r rest n, iparse s r rest <> IErrAt n) ->
+    (forall fid fl, contents fid = Some fl -> Forall no_nl fl) ->
     contents root = Some ls ->
     parse_root iparse fs contents depth root path dir ls = Err e ->
     match e with
